@@ -51,6 +51,8 @@ def gen_amp(rng, name, twin_of=None):
         e.pop('other_name', None)
         if rng.random() < 0.5:
             e['allowed_for_design'] = rng.random() < 0.7
+        if e['type_def'] == 'fixed_gain' and rng.random() < 0.35:
+            e['raman'] = not e.get('raman', False)     # equal NF across the EDFA / Raman lists: order of the two lists
         return e
     kind = rng.choices(['variable_gain', 'fixed_gain', 'openroadm', 'openroadm_preamp', 'openroadm_booster',
                         'advanced_model'], weights=[50, 28, 5, 5, 4, 8])[0]
